@@ -38,6 +38,7 @@ static volatile int fi_armed;     /* inside a library call (volatile: libc alloc
 struct FiReg { void *p; size_t n; };
 static struct FiReg *fi_tab;
 static long fi_ntab;              /* = number of tracked live regions */
+static int fi_quiet;              /* probe allocations of the dump code: no poisoning (speed) */
 
 static void fi_reset(void)
 {
@@ -70,7 +71,7 @@ static void *fi_alloc(size_t n, int zero)
 	if (fi_should_fail()) return NULL;
 	p = __real_malloc(n ? n : 1);
 	if (!p) { fprintf(stderr, "fi: real malloc failed\n"); abort(); }
-	memset(p, zero ? 0 : 0xA5, n);
+	if (zero || !fi_quiet) memset(p, zero ? 0 : 0xA5, n);
 	if (fi_ntab >= FI_MAXREG) { fprintf(stderr, "fi: region table full\n"); abort(); }
 	fi_tab[fi_ntab].p = p; fi_tab[fi_ntab].n = n; fi_ntab++;
 	return p;
@@ -81,7 +82,7 @@ static int fi_release(void *p)
 {
 	long i = fi_find(p);
 	if (i < 0) return 0;
-	memset(p, 0xDD, fi_tab[i].n);
+	if (!fi_quiet) memset(p, 0xDD, fi_tab[i].n);
 	fi_tab[i] = fi_tab[fi_ntab - 1];
 	fi_ntab--;
 	__real_free(p);
